@@ -155,79 +155,91 @@ Section Calc.
   Definition selected_name (alias : option string) (fd : fielddef) : string :=
     match alias with Some a => a | None => fd_name fd end.
 
+  (* the body of calculate_selection, parameterised by the recursive call *)
+  Section Body.
+    Variable rec : ctx -> list rsel -> nat -> string -> string -> option ctx.
+
+    (* 1. the exhaustive variants of a union / interface *)
+    Definition calc_variants (c : ctx) (sels : list rsel) (sid : nat) (tname prefix : string) : option ctx :=
+      let variants :=
+        match find_kind_sdl s tname with
+        | Some KInterface => Some (implementors s tname)
+        | Some KUnion => find_union s tname
+        | _ => None
+        end in
+      match variants with
+      | None => Some c
+      | Some vs =>
+          match fold_opt (fun c v =>
+                  let mine := filter (fun x => match variant_selection tname x with
+                                               | Some t => String.eqb t v | None => false end) sels in
+                  match mine with
+                  | [] => Some (push_variant c sid (mkVariant v None None false))
+                  | _ =>
+                      let sname := (prefix ++ "On" ++ v)%string in
+                      let c1 := push_variant c sid (mkVariant v None (Some (RNamed sname)) false) in
+                      let '(c2, nid) := push_type c1 sname in
+                      match mine with
+                      | [RSpread n] => Some (push_alias c2 nid n (recursive n))
+                      | _ =>
+                          fold_opt (fun c x =>
+                            match x with
+                            | RInline on sub => rec c sub nid v (prefix ++ "On" ++ camel on)%string
+                            | RSpread n =>
+                                Some (push_field c nid
+                                        (render_field o None (snake n) n [QRequired] true None (recursive n)))
+                            | _ => Some c
+                            end) mine c2
+                      end
+                  end) vs c with
+          | None => None
+          | Some c' =>
+              Some (if o_other_variant o then push_variant c' sid (mkVariant "Unknown" None None true) else c')
+          end
+      end.
+
+    (* 2. the fields *)
+    Definition calc_fields (c : ctx) (sels : list rsel) (sid : nat) (tname prefix : string) : option ctx :=
+      fold_opt (fun c x =>
+        match x with
+        | RField alias fd sub =>
+            let gn := selected_name alias fd in
+            let rust := kw (snake gn) in
+            let tn := gname (fd_type fd) in
+            let quals := quals_sdl (fd_type fd) in
+            match find_kind_sdl s tn with
+            | Some KEnum | Some KScalar =>
+                Some (push_field c sid (render_field o (Some gn) rust (norm_field_type o tn) quals false (fd_deprecated fd) false))
+            | Some KObject | Some KInterface | Some KUnion =>
+                let sname := (prefix ++ camel gn)%string in
+                let c1 := push_field c sid (render_field o (Some gn) rust sname quals false (fd_deprecated fd) false) in
+                let '(c2, nid) := push_type c1 sname in
+                rec c2 sub nid tn sname
+            | _ => Some c      (* unreachable!("field selection on input type"): resolve never binds such a field *)
+            end
+        | RTypename | RInline _ _ => Some c
+        | RSpread n =>
+            if String.eqb (frag_on n) tname
+            then Some (push_field c sid (render_field o None (kw (snake n)) n [QRequired] true None (recursive n)))
+            else Some c
+        end) sels c.
+
+    Definition calc_body (c : ctx) (sels : list rsel) (sid : nat) (tname prefix : string) : option ctx :=
+      match sels with
+      | [RSpread n] => Some (push_alias c sid n (recursive n))
+      | _ =>
+          match calc_variants c sels sid tname prefix with
+          | None => None
+          | Some c1 => calc_fields c1 sels sid tname prefix
+          end
+      end.
+  End Body.
+
   Fixpoint calc (fuel : nat) (c : ctx) (sels : list rsel) (sid : nat) (tname prefix : string) {struct fuel}
     : option ctx :=
     match fuel with
     | O => None
-    | S f =>
-      match sels with
-      | [RSpread n] => Some (push_alias c sid n (recursive n))
-      | _ =>
-        let variants :=
-          match find_kind_sdl s tname with
-          | Some KInterface => Some (implementors s tname)
-          | Some KUnion => find_union s tname
-          | _ => None
-          end in
-        (* 1. the exhaustive variants of a union / interface *)
-        match (match variants with
-               | None => Some c
-               | Some vs =>
-                   match fold_opt (fun c v =>
-                           let mine := filter (fun x => match variant_selection tname x with
-                                                        | Some t => String.eqb t v | None => false end) sels in
-                           match mine with
-                           | [] => Some (push_variant c sid (mkVariant v None None false))
-                           | _ =>
-                               let sname := (prefix ++ "On" ++ v)%string in
-                               let c1 := push_variant c sid (mkVariant v None (Some (RNamed sname)) false) in
-                               let '(c2, nid) := push_type c1 sname in
-                               match mine with
-                               | [RSpread n] => Some (push_alias c2 nid n (recursive n))
-                               | _ =>
-                                   fold_opt (fun c x =>
-                                     match x with
-                                     | RInline on sub => calc f c sub nid v (prefix ++ "On" ++ camel on)%string
-                                     | RSpread n =>
-                                         Some (push_field c nid
-                                                 (render_field o None (snake n) n [QRequired] true None (recursive n)))
-                                     | _ => Some c
-                                     end) mine c2
-                               end
-                           end) vs c with
-                   | None => None
-                   | Some c' =>
-                       Some (if o_other_variant o then push_variant c' sid (mkVariant "Unknown" None None true) else c')
-                   end
-               end) with
-        | None => None
-        | Some c1 =>
-          (* 2. the fields *)
-          fold_opt (fun c x =>
-            match x with
-            | RField alias fd sub =>
-                let gn := selected_name alias fd in
-                let rust := kw (snake gn) in
-                let tn := gname (fd_type fd) in
-                let quals := quals_sdl (fd_type fd) in
-                match find_kind_sdl s tn with
-                | Some KEnum | Some KScalar =>
-                    Some (push_field c sid (render_field o (Some gn) rust (norm_field_type o tn) quals false (fd_deprecated fd) false))
-                | Some KObject | Some KInterface | Some KUnion =>
-                    let sname := (prefix ++ camel gn)%string in
-                    let c1 := push_field c sid (render_field o (Some gn) rust sname quals false (fd_deprecated fd) false) in
-                    let '(c2, nid) := push_type c1 sname in
-                    calc f c2 sub nid tn sname
-                | _ => None                                   (* unreachable!("field selection on input type") *)
-                end
-            | RTypename | RInline _ _ => Some c
-            | RSpread n =>
-                if String.eqb (frag_on n) tname
-                then Some (push_field c sid (render_field o None (kw (snake n)) n [QRequired] true None (recursive n)))
-                else Some c
-            end) sels c1
-        end
-      end
+    | S f => calc_body (calc f) c sels sid tname prefix
     end.
 
   Definition calc_fuel (sels : list rsel) : nat := S (S (sels_depth sels)).
@@ -395,6 +407,14 @@ Section Calc.
   Definition builtin_alias_items : list ritem :=
     [IAlias "Boolean" (RNamed "bool"); IAlias "Float" (RNamed "f64"); IAlias "Int" (RNamed "i64"); IAlias "ID" (RNamed "String")].
 
+  (* decorate_type panics on a doubled `!`: the only way to get one past the parser is an @oneOf
+     member declared non-null (generate_enum prepends a Required qualifier) *)
+  Definition double_required (u : used) : bool :=
+    existsb (fun inp => mem_str (ai_name inp) (u_types u) && ai_one_of inp &&
+                        match find_kind_sdl s (ai_name inp) with Some KInput => true | _ => false end &&
+                        existsb (fun fld => match snd fld with GNonNull _ => true | _ => false end) (ai_fields inp))
+            (a_inputs s).
+
   Definition operation_items (op : rop) : option (list ritem) :=
     match all_used op with
     | None => None
@@ -422,6 +442,8 @@ Definition module_of (s : aschema) (q : rquery) (o : opts) (query_text : string)
       match operation_items s (rq_frags q) o op with
       | None => Panic "model out of fuel"
       | Some items =>
+          if match all_used s (rq_frags q) op with Some u => double_required s u | None => false end
+          then Panic "double required annotation" else
           let ident := norm o op_name in
           let sp := filter (fun x => negb (String.eqb x "")) (split_path (serde_path_str o)) in
           let sp := if String.prefix "::" (trim (serde_path_str o)) then "" :: sp else sp in
